@@ -800,6 +800,10 @@ func (p *Prog) flagClassFacts(f *Func, v *types.Var, class string, depth int, se
 				}
 			case *ast.CompositeLit:
 				got = "nonnil"
+			case *ast.CallExpr:
+				if n := p.CalleeName(x); n == "fmt.Errorf" || n == "errors.New" {
+					got = "nonnil"
+				}
 			}
 			if p.isNilExpr(rhs) {
 				got = "nil"
